@@ -87,9 +87,12 @@ def vpd_formats():
         {"sat_vendor_identification": b(8), "sat_product_identification": b(16), "sat_product_rev_lvl": b(4),
          "signature_fis": b(20), "identify": b(512)}))
     out.append(Format("vpd_89", s, lambda t: R.vpd_ata_information(t[1], pq=t[0]["pq"], pdt=t[0]["pdt"]),
-                      lambda t: vpd_expect(t[0], 0x89, {k: t[1][k] for k in ("sat_vendor_identification",
-                                                                             "sat_product_identification",
-                                                                             "sat_product_rev_lvl")}), I()))
+                      lambda t: vpd_expect(t[0], 0x89, dict(
+                          {k: t[1][k] for k in ("sat_vendor_identification", "sat_product_identification", "sat_product_rev_lvl")},
+                          # IDENTIFY DEVICE data starts at byte 60 of the page (SAT-3 table "ATA Information VPD page");
+                          # ACS: words 10-19 serial number, 23-26 firmware revision, 27-46 model number (raw bytes)
+                          identify={"serial_number": t[1]["identify"][20:40], "firmware_rev": t[1]["identify"][46:54],
+                                    "model_number": t[1]["identify"][54:94]})), I()))
     # device identification
     def desc():
         def mk(t):
